@@ -820,6 +820,11 @@ func ruleNoGlobalWrites(rule string) func(*Ctx) {
 							uses[g] = append(uses[g], "")
 							continue
 						}
+						// an element read of an array of numbers that only the initialiser writes (a lookup table)
+						if _, isIA := in.(*ssa.IndexAddr); isIA && c.readOnlyTables().names[g.Name()] {
+							uses[g] = append(uses[g], "")
+							continue
+						}
 						uses[g] = append(uses[g], fmt.Sprintf("%s in %s: %s", c.pos(in.Pos()), c.fname(f), in.String()))
 					}
 				}
